@@ -585,7 +585,7 @@ class Integer(Type):
     def set_restricted_to_range(self, minimum, maximum, has_extension_marker):
         self.has_extension_marker = has_extension_marker
 
-        if minimum != 'MIN':
+        if minimum != 'MIN' and not has_extension_marker:
             self.signed = (minimum < 0)
 
         if minimum == 'MIN' or maximum == 'MAX' or has_extension_marker:
